@@ -22,8 +22,10 @@ using namespace draco;
 using vf::Reporter;
 using vf::Rng;
 
-static const char *kCorpusDir = "/verif/corpus/frozen";
-static const char *kLegacyDigests = "/verif/corpus/legacy_digests.txt";
+static const std::string kCorpusDirS = vf::VerifRoot() + "/corpus/frozen";
+static const char *kCorpusDir = kCorpusDirS.c_str();
+static const std::string kLegacyDigestsS = vf::VerifRoot() + "/corpus/legacy_digests.txt";
+static const char *kLegacyDigests = kLegacyDigestsS.c_str();
 
 static std::string ReadFile(const std::string &p) {
   std::ifstream f(p, std::ios::binary);
@@ -184,13 +186,13 @@ int main(int argc, char **argv) {
     if (std::string(argv[i]) == "--freeze" && i + 2 < argc) return Freeze(argv[i + 1], atoi(argv[i + 2]));
     if (std::string(argv[i]) == "--legacy-digests" && i + 1 < argc) {
       std::ofstream dg(argv[i + 1]);
-      for (auto &n : ListDrc("/repo/testdata")) { std::string b = ReadFile("/repo/testdata/" + n); if (b.empty()) continue; Status st; std::string d = DecodeDigest(b, 0, &st); dg << n << " " << (st.ok() ? d : std::string("undecodable")) << "\n"; }
+      for (auto &n : ListDrc(vf::RepoRoot() + "/testdata")) { std::string b = ReadFile(vf::RepoRoot() + "/testdata/" + n); if (b.empty()) continue; Status st; std::string d = DecodeDigest(b, 0, &st); dg << n << " " << (st.ok() ? d : std::string("undecodable")) << "\n"; }
       return 0;
     }
   }
   static std::vector<std::string> legacy, frozen;
   static std::map<std::string, std::string> legacy_dg, frozen_dg;
-  legacy = ListDrc("/repo/testdata");
+  legacy = ListDrc(vf::RepoRoot() + "/testdata");
   frozen = ListDrc(kCorpusDir);
   legacy_dg = LoadDigests(kLegacyDigests);
   frozen_dg = LoadDigests(std::string(kCorpusDir) + "/digests.txt");
@@ -201,7 +203,7 @@ int main(int argc, char **argv) {
     if (k < nl + nfz) {
       const bool is_legacy = k < nl;
       const std::string name = is_legacy ? legacy[k] : frozen[k - nl];
-      const std::string bytes = ReadFile((is_legacy ? std::string("/repo/testdata/") : std::string(kCorpusDir) + "/") + name);
+      const std::string bytes = ReadFile((is_legacy ? (vf::RepoRoot() + "/testdata/") : std::string(kCorpusDir) + "/") + name);
       const std::string desc = std::string(is_legacy ? "legacy " : "frozen ") + name + " bytes=" + std::to_string(bytes.size());
       rep.note(desc);
       if (bytes.empty()) { rep.count("emptied_testdata_file"); rep.held(0, false); return; }
@@ -219,7 +221,7 @@ int main(int argc, char **argv) {
       }
       // Independent anchor for the test_nm legacy streams: decoded positions are the quantized positions of testdata/test_nm.obj.
       if (is_legacy && name.rfind("test_nm", 0) == 0) {
-        std::string obj = ReadFile("/repo/testdata/test_nm.obj");
+        std::string obj = ReadFile(vf::RepoRoot() + "/testdata/test_nm.obj");
         if (!obj.empty()) {
           DecoderBuffer ob; ob.Init(obj.data(), obj.size());
           Mesh om; ObjDecoder od;
@@ -254,7 +256,7 @@ int main(int argc, char **argv) {
     const int major = static_cast<int>(k % per_stream);
     // streams: alternate legacy and frozen
     std::string name, bytes;
-    if (si % 2 == 0) { name = legacy[(si / 2) % nl]; bytes = ReadFile("/repo/testdata/" + name); } else { name = frozen[(si / 2 * 37) % nfz]; bytes = ReadFile(std::string(kCorpusDir) + "/" + name); }
+    if (si % 2 == 0) { name = legacy[(si / 2) % nl]; bytes = ReadFile(vf::RepoRoot() + "/testdata/" + name); } else { name = frozen[(si / 2 * 37) % nfz]; bytes = ReadFile(std::string(kCorpusDir) + "/" + name); }
     if (bytes.size() < 11) { rep.held(0, false); return; }
     const int type = static_cast<uint8_t>(bytes[7]);
     const int max_major = 2, max_minor = type == POINT_CLOUD ? 3 : 2;
